@@ -30,7 +30,13 @@ def step (toks : List String) : String :=
     | some q =>
       let cfg : Config := { state := parseBits state, slots := parseSlots slots }
       let (cfg', rs) := loopUpdate (genericW q) cfg (RS.ofScript (parseNats script))
-      s!"{showBits cfg'.state} {showSlots cfg'.slots} {rs.verdict} c={showBool (decide (Consistent cfg'))}"
+      -- hypotheses of `Qmc.C04.loopUpdate_pres` on the replayed input: Op.WF and a positive matrix
+      -- element for every op, periodic world lines (the theorem then gives c=1 whenever the
+      -- verdict is `ok`; both are printed and compared with the implementation on every run)
+      let hyp := cfg.slots.all (fun o => match o with
+        | some op => decide op.WF && decide (0 < genericW q op.bond op.ins op.outs)
+        | none => true) && decide (Consistent cfg)
+      s!"{showBits cfg'.state} {showSlots cfg'.slots} {rs.verdict} c={showBool (decide (Consistent cfg'))} hyp={showBool hyp}"
   -- start op / leg / side draw map
   | ["start", slots, script] =>
     let sl := parseSlots slots
@@ -89,6 +95,9 @@ def step (toks : List String) : String :=
     | some q =>
       let gate := shouldDoClusterUpdate q
       s!"gate={showBool gate} loop={showBool (shouldDoLoopUpdate q)} od={if gate then "?" else "0"}"
+  -- heat-bath table maxima: implementation-side oracle only (stored per-bond maxima vs the maximum
+  -- over all 2^k diagonal entries of the user's matrix); nothing to replay
+  | "hbtable" :: _ => "-"
   | _ => "bad-op"
 
 def main : IO Unit := run step
